@@ -272,6 +272,8 @@ def judge_instance(acc, dname, dic, schema, mt, msgdef, inst, label, cid, npos, 
                 why = f"{type(e).__name__}: {e}"[:300]
             acc.violation(key, f"{dname} {msgdef['name']} ({label}, header={header}): {why}", {"dict": dname, "msgtype": mt, "instance": show_inst(inst)}, cid)
             return
+    if rnd.random() < 0.15:
+        header_faults(acc, dname, dic, schema, mt, inst, cid, rnd)
     faults = fault_positions(dic, msgdef, inst, rnd)
     for f in pick_positions(faults, npos, rnd):
         acc.oracle("fault-rejected")
@@ -290,6 +292,34 @@ def judge_instance(acc, dname, dic, schema, mt, msgdef, inst, label, cid, npos, 
             key = (f"{f[0]}-accepted:{where}" if v == "accept" else f"{f[0]}:{v}")
             acc.violation(key, f"{dname} {msgdef['name']}: single fault {f[0]} at depth {f[1]} (path {f[2]}, index {f[3]}) -> {v}",
                           {"dict": dname, "msgtype": mt, "fault": [f[0], f[1], list(f[2]), f[3], str(f[4])[:80]], "instance": show_inst(bad)}, cid)
+
+
+HEADER_FAULTS = [("43", "maybe"), ("43", ""), ("122", "yesterday"), ("369", "-3"), ("97", "Q"), ("34", "abc"), ("52", "now"), ("50", ""), ("347", "")]
+
+
+def header_faults(acc, dname, dic, schema, mt, inst, cid, rnd):
+    """one bad value in a field of the standard header (optional ones included): rejected like a bad value anywhere else"""
+    if not (mt in (dic.by_tag.get("35", {}).get("enum") or [mt])):
+        return
+    for tag, val in HEADER_FAULTS:
+        if tag not in dic.header_tags or tag not in dic.by_tag:
+            continue
+        node = dic.by_tag[tag]
+        if val and ((node["enum"] and val in node["enum"]) or (not node["enum"] and lexical.zone(node["type"], val) != "reject")):
+            continue
+        try:
+            m = to_message(dic, mt, inst, header=True)
+            m.set(tag, val, replace=True)
+        except Exception:
+            continue
+        acc.oracle("fault-rejected")
+        acc.addmap("faults_by_class", "bad-header-value")
+        v = verdict(schema, m)
+        acc.case_disjoint(nontrivial=True)
+        if v != "reject":
+            acc.violation(f"bad-header-value-accepted" if v == "accept" else f"bad-header-value:{v}",
+                          f"{dname} {mt}: header field {node['name']}({tag})={val!r} -> {v}", {"dict": dname, "msgtype": mt, "tag": tag, "value": val}, cid)
+            return
 
 
 def permuted_tree(path, rnd):
